@@ -144,6 +144,12 @@ func CreateStorageTx(ctx context.Context, root *treechangeproto.RawTreeChangeWit
 		}
 		return nil, err
 	}
+	// The caller's tombstone check (synctree.checkTreeDeleted) and this creation are not atomic:
+	// the deletion of this id may have been recorded in between (e.g. while a remote fetch was in
+	// flight). Re-check inside the creating transaction: a deleted tree must not get a storage again.
+	if entry, entryErr := st.headStorage.GetEntry(ctx, root.Id); entryErr == nil && entry.DeletedStatus != headstorage.DeletedStatusNotDeleted {
+		return nil, treestorage.ErrTreeStorageAlreadyDeleted
+	}
 	headsUpdate := headstorage.HeadsUpdate{
 		Id:             root.Id,
 		Heads:          []string{root.Id},
